@@ -25,7 +25,7 @@ STD_REGISTRY = [
     ('b', 0, 4, 'getitem', 'shifted'),
     ('', 0, 6, 'auto', 'none3'),
     ('a', 1, 3, 'auto', 'two'),          # namedtuple class Single registered as custom in 'a'
-    ('b', 1, 0, 'getitem', 'shifted'),   # namedtuple class Point registered as custom in 'b'
+    ('b', 1, 0, 'auto', 'none3'),        # namedtuple class Point registered as custom in 'b'
 ]
 # user class 5 and 7 are never registered (always leaves)
 NAMESPACES = ['', 'a', 'b', 'zz']        # 'zz' has no registrations ("unknown namespace")
